@@ -5,6 +5,7 @@
    vm_compute in the kernel. *)
 From PSA Require Import model.Bytes model.Checksum model.Layer model.Dhcp model.Clients model.Ipdb model.IpdbCheck spec.SpecCodec spec.SpecTable spec.SpecIpdb model.Server spec.Monitors.
 From PSA Require Import gen.GoFacts model.Sanitize model.Resolv spec.SpecResolv.
+From PSA Require Import model.Config spec.SpecConfig.
 Open Scope N_scope.
 
 Definition arg (args : list (list N)) (i : nat) : list N := nth i args [].
@@ -219,6 +220,123 @@ Definition dispatch_c17 (tag : N) (a : LL) : LL :=
   | 1712 => [[b2n (forallb psa_var_ok a)]]
   | 1720 => [[b2n (resolv_ok (arg a 0))]]
   | 1721 => [[b2n (match spec_nameservers (os_environ (skipn 1 a)) with [] => false | _ => true end)]]
+(* ---- C18 / C07: configuration ---- *)
+(* Layout of a case (number lists):
+     0  header [net kind 0 bad/1 v6/2 v4; ip; mask; lease kind 0 bad/1 dur; negative?; |seconds|; |ns remainder|;
+                range kind 0 unset/1 bad format/2 bad ip/3 range; a is v4?; a; b is v4?; b; static_only;
+                own address present?; own address; number of clients; number of probe hardware addresses]
+     1  own hardware address     2  global router [kind; value]     3  global dns (kind, value pairs)
+     4  global ntp               5  domain                          6  the configuration as text (for replays; not read)
+     then five lists per client: [key kind; ip kind; ip; router kind; router]; hardware address; dns; ntp; host name
+     then the probe hardware addresses, then the observation (monitor tags only).
+   An address kind is 0 unset / 1 unparsable or IPv6 / 2 IPv4. *)
+Definition dec_addr (k v : N) : addr_c := match k with 0 => AUnset | 2 => V4 v | _ => ABad end.
+Fixpoint dec_addrs (l : list N) : list addr_c :=
+  match l with k :: v :: r => dec_addr k v :: dec_addrs r | _ => [] end.
+
+Definition dec_client (h mac dns ntp host : list N) : client_c :=
+  {| k_key := if n0 h 0 =? 0 then BadMac else Mac mac; k_ip := dec_addr (n0 h 1) (n0 h 2);
+     k_router := dec_addr (n0 h 3) (n0 h 4); k_dns := dec_addrs dns; k_ntp := dec_addrs ntp; k_hostname := host |}.
+
+Fixpoint dec_clients (k : nat) (l : LL) : list client_c * LL :=
+  match k with
+  | O => ([], l)
+  | S k' => match l with
+            | h :: mac :: dns :: ntp :: host :: r => let (cs, rest) := dec_clients k' r in (dec_client h mac dns ntp host :: cs, rest)
+            | _ => ([], [])
+            end
+  end.
+
+Record cfg_case := { cc_cfg : config; cc_own : option N; cc_own_mac : bytes; cc_probes : list bytes; cc_obs : LL }.
+
+Definition dec_cfg_case (a : LL) : cfg_case :=
+  let h := arg a 0 in
+  let g i := n0 h i in
+  let ns := (Z.of_N (g 5%nat) * 1000000000 + Z.of_N (g 6%nat))%Z in
+  let (cs, rest) := dec_clients (N.to_nat (g 15%nat)) (skipn 7 a) in
+  let np := N.to_nat (g 16%nat) in
+  {| cc_cfg := {| g_network := match g 0%nat with 0 => NetBad | 1 => NetV6 | _ => Net4 (g 1%nat) (g 2%nat) end;
+                  g_lease := if g 3%nat =? 0 then LeaseBad else Dur (if g 4%nat =? 0 then ns else (- ns)%Z);
+                  g_router := dec_addr (argn a 2 0) (argn a 2 1); g_dns := dec_addrs (arg a 3); g_ntp := dec_addrs (arg a 4);
+                  g_domain := arg a 5;
+                  g_range := match g 7%nat with
+                             | 0 => RUnset | 1 => RBadFormat | 2 => RBadIP
+                             | _ => Range (optn (g 8%nat) (g 9%nat)) (optn (g 10%nat) (g 11%nat)) end;
+                  g_static_only := negb (g 12%nat =? 0);
+                  g_clients := cs |};
+     cc_own := optn (g 13%nat) (g 14%nat); cc_own_mac := arg a 1;
+     cc_probes := firstn np rest; cc_obs := skipn np rest |}.
+
+Definition enc_binding (e : entry) : LL := [[e_ip e; b2n (e_perm e)]; e_duid e].
+Definition enc_optlist (os : list dhcp_opt) : LL := [N.of_nat (length os)] :: enc_dopts os.
+
+Definition enc_state (s : server_state) (probes : list bytes) : LL :=
+  let x := s_db s in
+  let t := sort_by_ip (s_table s) in
+  [net_from x; net_to x; dyn_from x; dyn_to x; N.of_nat (length t)]
+  :: flat_map enc_binding t ++ flat_map (fun m => enc_optlist (effective_options s m)) probes.
+
+(* observation of one construction: [accepted; netFrom; netTo; dynFrom; dynTo; bindings] then the bindings
+   (sorted by address) then one option list per probe *)
+Fixpoint dec_bindings (k : nat) (l : LL) : table * LL :=
+  match k with
+  | O => ([], l)
+  | S k' => match l with
+            | h :: d :: r => let (xs, rest) := dec_bindings k' r in
+                             ({| e_ip := n0 h 0; e_duid := d; e_until := 0%Z; e_perm := negb (n0 h 1 =? 0) |} :: xs, rest)
+            | _ => ([], [])
+            end
+  end.
+Fixpoint dec_optlists (k : nat) (l : LL) : list (list dhcp_opt) :=
+  match k with
+  | O => []
+  | S k' => let (os, rest) := take_opts l in os :: dec_optlists k' rest
+  end.
+
+Fixpoint all2 {A B} (f : A -> B -> bool) (a : list A) (b : list B) : bool :=
+  match a, b with
+  | [], [] => true
+  | x :: a', y :: b' => f x y && all2 f a' b'
+  | _, _ => false
+  end.
+
+Fixpoint nlist_eqb (a b : list N) : bool :=
+  match a, b with
+  | [], [] => true
+  | x :: a', y :: b' => (x =? y) && nlist_eqb a' b'
+  | _, _ => false
+  end.
+
+Definition dispatch_c18 (tag : N) (a : LL) : LL :=
+  let cc := dec_cfg_case a in
+  let c := cc_cfg cc in
+  match tag with
+  (* correspondence: verdict, ranges, bindings and the options of every probe *)
+  | 1801 => enc_res (new_server c (cc_own cc) (cc_own_mac cc)) (fun s => enc_state s (cc_probes cc))
+  (* correspondence for one probe: verdict and options *)
+  | 1802 => enc_res (new_server c (cc_own cc) (cc_own_mac cc))
+                    (fun s => match cc_probes cc with m :: _ => enc_optlist (effective_options s m) | [] => [] end)
+  (* monitor C18 on one construction: [verdict as the specification demands; ranges and bindings as expected;
+     options of every probe as expected] *)
+  | 1810 =>
+    let h := hd0 (cc_obs cc) in
+    let accepted := negb (n0 h 0 =? 0) in
+    let (bs, rest) := dec_bindings (N.to_nat (n0 h 5)) (tl (cc_obs cc)) in
+    let ols := dec_optlists (length (cc_probes cc)) rest in
+    [[b2n (Bool.eqb accepted (valid_config_b c (cc_own cc) (cc_own_mac cc)));
+      b2n (negb accepted || mon_C18 c (cc_own cc) (cc_own_mac cc) true (n0 h 1, n0 h 2, n0 h 3, n0 h 4) bs
+           || negb (valid_config_b c (cc_own cc) (cc_own_mac cc)));
+      b2n (negb accepted || all2 (fun m os => opts_eqb os (expected_options c m)) (cc_probes cc) ols)]]
+  (* monitor determinism: every construction of one configuration was observed alike *)
+  | 1811 => [[b2n (match cc_obs cc with [] => true | x :: r => forallb (nlist_eqb x) r end)]]
+  (* monitor C07 for one probe: observation = option list, OFFER payload, ACK payload *)
+  | 1820 =>
+    match cc_probes cc, cc_own cc with
+    | m :: _, Some self =>
+      let (os, rest) := take_opts (cc_obs cc) in
+      [[b2n (mon_C07 c self m os (arg rest 0) (arg rest 1))]]
+    | _, _ => [[0]]
+    end
   | _ => [[99]]
   end.
 
@@ -228,4 +346,5 @@ Definition dispatch (tag : N) (a : list (list N)) : list (list N) :=
   else if (1100 <=? tag) && (tag <? 1200) then dispatch_c11 tag a
   else if (100 <=? tag) && (tag <? 1000) then dispatch_server tag a
   else if (1700 <=? tag) && (tag <? 1800) then dispatch_c17 tag a
+  else if (1800 <=? tag) && (tag <? 1900) then dispatch_c18 tag a
   else [[99]].
